@@ -11,7 +11,7 @@ Extraction "../ocaml/model.ml"
   find_crlf utf8_valid utf8_decode utf8_encode parse_dec parse_hex parse_dec_rust
   parse_hex_rust show_dec hdr_parse header_value header_tokens has_header_token
   set_header remove_header hdr_generate
-  default_cfg req_init req_parse req_reserve req_generate
+  default_cfg req_init req_parse req_reserve req_generate req_generate_full hdr_generate_full
   chunk_init chunk_decode chunk_reserves
   resp_init resp_parse resp_generate dechunk_headers
   decode_body decode_text w1252_decode content_type_charset zlib_header
